@@ -36,9 +36,9 @@ ASSUMPTIONS = [
     "a HeterogeneousLinearModel applied at another resolution uses the nearest-neighbour (cv2.INTER_NEAREST) resampling of its original label map",
 ]
 FLOORS = {
-    "quick": {"two_live_objects": 400, "clip": 300, "linear": 300, "combined_composition": 100, "combined_routing": 300, "heterogeneous_linear": 80, "heterogeneous_resolution_history": 100, "combined_routing_grouped": 100, "threshold": 150, "kernel_reproduces_values": 60, "kernel_values_updated": 100, "kernel_advanced_updated": 15,
+    "quick": {"two_live_objects": 400, "clip": 300, "linear": 300, "combined_composition": 100, "combined_routing": 300, "heterogeneous_linear": 80, "heterogeneous_resolution_history": 100, "combined_routing_grouped": 100, "threshold": 150, "threshold_integer_signals": 500, "kernel_reproduces_values": 60, "kernel_values_updated": 100, "kernel_advanced_updated": 15,
               "kernel_numba_equals_plain_sum": 150, "polynomial_span": 5},
-    "thorough": {"two_live_objects": 4000, "clip": 3000, "linear": 3000, "combined_composition": 1000, "combined_routing": 3000, "heterogeneous_linear": 800, "heterogeneous_resolution_history": 1000, "combined_routing_grouped": 1000, "threshold": 1500, "kernel_reproduces_values": 600, "kernel_values_updated": 1000, "kernel_advanced_updated": 150,
+    "thorough": {"two_live_objects": 4000, "clip": 3000, "linear": 3000, "combined_composition": 1000, "combined_routing": 3000, "heterogeneous_linear": 800, "heterogeneous_resolution_history": 1000, "combined_routing_grouped": 1000, "threshold": 1500, "threshold_integer_signals": 5000, "kernel_reproduces_values": 600, "kernel_values_updated": 1000, "kernel_advanced_updated": 150,
                  "kernel_numba_equals_plain_sum": 1500, "polynomial_span": 5},
 }
 SHARD_TIMEOUT = {"quick": 1500, "thorough": 7200}
@@ -92,7 +92,7 @@ def run_shard(spec, R):
                 R.check(good, "clip", case)
             # parameter subsets
             for dofs, params in (("all", [0.1, 0.6]), (None, [0.2, 0.7]), (["min_value"], [0.3]), (["max_value"], [0.9]), (["min_value", "max_value"], [0.05, 0.5]),
-                                 (["max_value", "min_value"], [0.15, 0.55])):
+                                 (["max_value", "min_value"], [0.15, 0.55]), (["min_value"], [0.0]), (["max_value"], [0.0]), ("all", [0.0, 0.0]), (None, [-0.5, 0.0])):
                 m2 = darsia.ClipModel(**{"min value": -9.0, "max value": 9.0})
                 ok, _ = R.guarded("clip", lambda: m2.update_model_parameters(np.array(params), dofs))
                 if ok:
@@ -125,7 +125,9 @@ def run_shard(spec, R):
                     good &= np.allclose(vals[2], a * vals[0] + (1 - a) * vals[1], rtol=0, atol=1e-12 * sc * (abs(a) + 1))
                     R.check(bool(good), "linear", case)
             # parameter routing of the linear model
-            for dofs, params, exp in ((None, [1.5, 0.25], (1.5, 0.25)), (["scaling"], [3.0], (3.0, 7.0)), (["offset"], [0.5], (2.0, 0.5)), (["offset", "scaling"], [4.0, 0.75], (4.0, 0.75))):
+            for dofs, params, exp in ((None, [1.5, 0.25], (1.5, 0.25)), (["scaling"], [3.0], (3.0, 7.0)), (["offset"], [0.5], (2.0, 0.5)), (["offset", "scaling"], [4.0, 0.75], (4.0, 0.75)),
+                                      # parameters that are exactly zero are values like any other
+                                      (["offset"], [0.0], (2.0, 0.0)), (["scaling"], [0.0], (0.0, 7.0)), (None, [0.0, 0.0], (0.0, 0.0)), (["scaling", "offset"], [0.0, -1.0], (0.0, -1.0))):
                 m3 = darsia.LinearModel(scaling=2.0, offset=7.0)
                 ok, _ = R.guarded("linear", lambda: m3.update_model_parameters(np.array(params), dofs))
                 if ok:
@@ -321,6 +323,20 @@ def run_shard(spec, R):
                     ok, outm = R.guarded("threshold", lambda: tm(xx, msk))
                     if ok:
                         R.check(np.array_equal(outm, exp & msk), "threshold", {**case, "what": "restricted to mask"})
+            # integer-typed signals with bounds that are not integers (and bounds exactly on signal values)
+            for idt in (np.uint8, np.int16, np.uint16):
+                lo_i, hi_i = float(rng.integers(0, 4)) + float(rng.choice([-0.5, 0.0, 0.5])), float(rng.integers(4, 9)) + float(rng.choice([-0.5, 0.0, 0.5]))
+                xi = rng.integers(0 if idt != np.int16 else -3, 10, size=shp).astype(idt)
+                for upper in (True, False):
+                    ok, ti = R.guarded("threshold", lambda: darsia.StaticThresholdModel(lo_i, hi_i if upper else None))
+                    if ok:
+                        ok, oi = R.guarded("threshold", lambda: ti(xi.copy()))
+                    if ok:
+                        refi = (xi.astype(float) > lo_i) & ((xi.astype(float) < hi_i) if upper else True)
+                        R.check(np.array_equal(oi, refi) and oi.dtype == bool, "threshold",
+                                lambda: {"model": "StaticThresholdModel", "signal_dtype": np.dtype(idt).name, "lower": lo_i, "upper": hi_i if upper else None, "what": "integer signal, strict inequalities"},
+                                group="integer_signal")
+                        R.count("threshold_integer_signals")
             R.sig(["heterogeneous", nl, values == list(range(nl))], nl > 1, cls="heterogeneous")
         if n < 1:
             R.sample({"families": ["clip", "linear", "combined", "heterogeneous_linear", "threshold"], "last_case": case})
